@@ -516,4 +516,328 @@ theorem linkWalk_ok {ld rd stop i j : Nat} (dir : Dir i j) (E : Nat → Prop) :
         refine ⟨⟨pl, pr, I⟩, by omega, Grow3.refl _, 0, rfl, rfl, ?_⟩
         intro t ht; omega
 
+
+/-! ## the walk of `three_unlink` -/
+
+theorem unlinkWalk_ok {ld rd stop i j : Nat} {again : Bool} (hi : i < 4) (hj : j < 4) :
+    ∀ (f ls rs : Nat) (m m' : Map X) (o : Nat × Nat),
+      WF 4 m → ls < m.n → rs < m.n →
+      run (threeUnlinkWalk (X := X) ld rd stop i j again f ls rs) m = (.ok o, m') →
+      WF 4 m' ∧ Shrink3 m m' := by
+  intro f
+  induction f with
+  | zero =>
+      intro ls rs m m' o _ _ _ h
+      unfold threeUnlinkWalk at h; simp at h
+  | succ f ih =>
+      intro ls rs m m' o hw hlsn hrsn h
+      unfold threeUnlinkWalk at h
+      by_cases hc : ls ≠ stop ∧ ls ≠ 0
+      · rw [if_pos hc] at h
+        obtain ⟨x, hx, h⟩ := run_ro_bind_ok (ReadOnly.rB _ _) h
+        by_cases hlx : ls ≠ x
+        · rw [if_pos hlx] at h; simp at h
+        · rw [if_neg hlx] at h
+          have hy : ∃ y, run ((fun y => if ls ≠ y then (Prog.panic : P X (Nat × Nat)) else do
+              iUnlinkCore 3 ls
+              let ls' ← rB i ls
+              let rs' ← rB j rs
+              threeUnlinkWalk ld rd stop i j again f ls' rs') y) m = (.ok o, m') := by
+            cases again with
+            | false =>
+                simp only [Bool.false_eq_true, if_false] at h
+                obtain ⟨y, _, h⟩ := run_ro_bind_ok (ReadOnly.pure _) h
+                exact ⟨y, h⟩
+            | true =>
+                simp only [if_true] at h
+                obtain ⟨y, _, h⟩ := run_ro_bind_ok (ReadOnly.rB _ _) h
+                exact ⟨y, h⟩
+          clear h
+          obtain ⟨y, h⟩ := hy
+          simp only [] at h
+          by_cases hly : ls ≠ y
+          · rw [if_pos hly] at h; simp at h
+          · rw [if_neg hly] at h
+            obtain ⟨_, m1, hl, h⟩ := run_bind_ok h
+            obtain ⟨_, _, hne, rfl⟩ := iUnlinkCore_ok hl
+            have em : (m.setβ 3 ls 0).setβ 3 (m.β 3 ls) 0 = m.unlinkI 3 ls := rfl
+            rw [em] at h
+            obtain ⟨ls', hb, h⟩ := run_ro_bind_ok (ReadOnly.rB _ _) h
+            obtain ⟨rfl, _, _⟩ := run_rB_ok hb
+            obtain ⟨rs', hb', h⟩ := run_ro_bind_ok (ReadOnly.rB _ _) h
+            obtain ⟨rfl, _, _⟩ := run_rB_ok hb'
+            have hw1 : WF 4 (m.unlinkI 3 ls) := hw.unlinkI (by omega) (by omega) hlsn hne
+            have hs : Shrink3 m (m.unlinkI 3 ls) := Shrink3.unlinkI hw hlsn
+            have R := ih _ _ (m.unlinkI 3 ls) m' o hw1 (hw1.range i hi ls hlsn) (hw1.range j hj rs hrsn) h
+            exact ⟨R.1, hs.trans R.2⟩
+      · rw [if_neg hc] at h
+        obtain ⟨_, rfl⟩ := run_pure_ok h
+        exact ⟨hw, Shrink3.refl _⟩
+
+/-! ## mirror condition: frame and symmetry -/
+
+/-- a 3-link of `(l, r)` does not disturb the mirror condition away from `l`, `r` and their
+    predecessors -/
+theorem MAtG_linkI_frame {m : Map X} (hw : WF 4 m) {i j : Nat} (dir : Dir i j) {l r d : Nat}
+    (hl : l < m.n) (hr : r < m.n) (hd : d < m.n)
+    (h1 : d ≠ l) (h2 : d ≠ r) (h3 : d ≠ m.β j l) (h4 : d ≠ m.β j r)
+    (hM : MAtG m i d) : MAtG (m.linkI 3 l r) i d := by
+  have hi3 : i ≠ 3 := by have := dir.ilt; omega
+  have eβ := hw.toSized.β_linkI (i := 3) (by omega) hl hr
+  have n3i : ¬ (3 = i) := fun hh => hi3 hh.symm
+  have hβi : ∀ x, (m.linkI 3 l r).β i x = m.β i x := by
+    intro x; rw [eβ]; simp only [n3i, false_and, if_false]
+  have e_oth : ∀ x, x ≠ l → x ≠ r → (m.linkI 3 l r).β 3 x = m.β 3 x := by
+    intro x a1 a2
+    rw [eβ]
+    have b1 : ¬ (r = x) := fun hh => a2 hh.symm
+    have b2 : ¬ (l = x) := fun hh => a1 hh.symm
+    simp [b1, b2]
+  unfold MAtG
+  simp only [hβi]
+  intro g1 g2 g3
+  have hc1 : m.β i d ≠ l := by
+    intro hh
+    have := hw.inv_ij dir hd g1
+    rw [hh] at this
+    exact h3 this.symm
+  have hc2 : m.β i d ≠ r := by
+    intro hh
+    have := hw.inv_ij dir hd g1
+    rw [hh] at this
+    exact h4 this.symm
+  rw [e_oth d h1 h2] at g2 ⊢
+  rw [e_oth _ hc1 hc2] at g3 ⊢
+  exact hM g1 g2 g3
+
+/-- the mirror condition read along `β i` at `d` is the mirror condition read along `β j` at
+    `β i d` -/
+theorem MAtG_flip {m : Map X} (hw : WF 4 m) {i j : Nat} (dir : Dir i j) {d : Nat} (hd : d < m.n)
+    (hM : MAtG m j (m.β i d)) : MAtG m i d := by
+  have hi4 : i < 4 := by have := dir.ilt; omega
+  intro h1 h2 h3
+  have hcn : m.β i d < m.n := hw.range i hi4 d hd
+  have hback : m.β j (m.β i d) = d := hw.inv_ij dir hd h1
+  have hd0 : d ≠ 0 := fun hh => h1 (by rw [hh]; exact hw.null i hi4)
+  have key := hM (by rw [hback]; exact hd0) h3 (by rw [hback]; exact h2)
+  rw [hback] at key
+  -- key : β j (β3 d) = β3 (β i d)
+  have hxn : m.β 3 d < m.n := hw.range 3 (by omega) d hd
+  have := hw.inv_ij dir.symm hxn (by rw [key]; exact h3)
+  rw [key] at this
+  exact this
+
+theorem mirror_iff (m : Map X) : Mirror m ↔ ∀ d, d < m.n → MAtG m 1 d := Iff.rfl
+
+/-! ## `three_link` -/
+
+/-- what a successful `three_link` has verified about the two faces: both closed with the same
+    number of darts, or both open with the same number of darts ahead of and behind the two
+    argument darts (iterates of the map BEFORE the call) -/
+def SameShape (m : Map X) (ld rd : Nat) : Prop :=
+  (∃ L, 0 < L ∧ it m 1 L ld = ld ∧ it m 0 L rd = rd ∧
+      ∀ t, 0 < t → t < L → it m 1 t ld ≠ ld ∧ it m 1 t ld ≠ 0 ∧ it m 0 t rd ≠ rd ∧ it m 0 t rd ≠ 0) ∨
+  (∃ F B, it m 1 F ld = 0 ∧ it m 0 F rd = 0 ∧ it m 0 B ld = 0 ∧ it m 1 B rd = 0 ∧
+      (∀ t, t < F → it m 1 t ld ≠ 0 ∧ it m 0 t rd ≠ 0) ∧ (∀ t, t < B → it m 0 t ld ≠ 0 ∧ it m 1 t rd ≠ 0))
+
+theorem threeLink3_ok {n ld rd : Nat} {m m' : Map X} {u : Unit} (hw : WF 4 m)
+    (hl0 : ld ≠ 0) (hr0 : rd ≠ 0) (hln : ld < m.n) (hrn : rd < m.n)
+    (hul : m.unused ld = false) (hur : m.unused rd = false) (hne : ld ≠ rd)
+    (h : run (threeLink3 (X := X) n ld rd) m = (.ok u, m')) :
+    WF 4 m' ∧ Grow3 m m' ∧ (Mirror m → Mirror m') ∧ SameShape m ld rd := by
+  unfold threeLink3 at h
+  obtain ⟨_, m0, hl, h⟩ := run_bind_ok h
+  obtain ⟨_, _, f1, f2, rfl⟩ := iLinkCore_ok hl
+  have em : (m.setβ 3 ld rd).setβ 3 rd ld = m.linkI 3 ld rd := rfl
+  rw [em] at h
+  obtain ⟨ls0, hb, h⟩ := run_ro_bind_ok (ReadOnly.rB _ _) h
+  obtain ⟨rfl, _, _⟩ := run_rB_ok hb
+  obtain ⟨rs0, hb', h⟩ := run_ro_bind_ok (ReadOnly.rB _ _) h
+  obtain ⟨rfl, _, _⟩ := run_rB_ok hb'
+  obtain ⟨⟨a, b⟩, m1, hwalk, h⟩ := run_bind_ok h
+  simp only [] at h
+  have d10 : Dir 1 0 := Or.inl ⟨rfl, rfl⟩
+  have d01 : Dir 0 1 := Or.inr ⟨rfl, rfl⟩
+  have hw0 : WF 4 (m.linkI 3 ld rd) := hw.linkI (by omega) (by omega) hl0 hr0 hne hln hrn hul hur f1 f2
+  have hg0 : Grow3 m (m.linkI 3 ld rd) := Grow3.linkI hw hln hrn f1 f2
+  have eβ := hw.toSized.β_linkI (i := 3) (by omega) hln hrn
+  have nrl : ¬ (rd = ld) := fun hh => hne hh.symm
+  have e_ld : (m.linkI 3 ld rd).β 3 ld = rd := by rw [eβ]; simp [nrl]
+  have e_rd : (m.linkI 3 ld rd).β 3 rd = ld := by rw [eβ]; simp
+  let E : Nat → Prop := fun d => ¬ Mirror m ∨ d = m.β 0 ld ∨ d = rd
+  have I0 : LInv (m.linkI 3 ld rd) 1 0 ld ld rd ((m.linkI 3 ld rd).β 1 ld) ((m.linkI 3 ld rd).β 0 rd) E := by
+    refine ⟨hw0, hln, hrn, hl0, hr0, e_ld, rfl, rfl, nrl, fun _ => by rw [e_ld]; exact hr0, ?_⟩
+    intro d hd hdl hdr hE
+    have hM : Mirror m := Classical.not_not.1 fun hh => hE (Or.inl hh)
+    have hd1 : d ≠ m.β 0 ld := fun hh => hE (Or.inr (Or.inl hh))
+    have hd2 : d ≠ rd := fun hh => hE (Or.inr (Or.inr hh))
+    rw [hg0.β 0 rd (by omega)] at hdr
+    exact MAtG_linkI_frame hw d10 hln hrn hd hdl hd2 hd1 hdr (hM d hd)
+  have R := linkWalk_ok d10 E (n + 1) _ _ ld rd _ m1 a b I0 hwalk
+  obtain ⟨pl', pr', I1⟩ := R.inv
+  have hw1 := I1.wf
+  have hg1 : Grow3 m m1 := hg0.trans R.grow
+  have hn1 : m1.n = m.n := hg1.n
+  have hβ1 : ∀ x, m1.β 1 x = m.β 1 x := fun x => hg1.β 1 x (by omega)
+  have hβ0 : ∀ x, m1.β 0 x = m.β 0 x := fun x => hg1.β 0 x (by omega)
+  have hβ1' : ∀ x, (m.linkI 3 ld rd).β 1 x = m.β 1 x := fun x => hg0.β 1 x (by omega)
+  have hβ0' : ∀ x, (m.linkI 3 ld rd).β 0 x = m.β 0 x := fun x => hg0.β 0 x (by omega)
+  have e3ld : m1.β 3 ld = rd := by rw [R.grow.keep ld (by rw [e_ld]; exact hr0), e_ld]
+  have e3rd : m1.β 3 rd = ld := by rw [R.grow.keep rd (by rw [e_rd]; exact hl0), e_rd]
+  -- the trace of the forward walk, on the initial map
+  obtain ⟨k, hka, hkb, hkt⟩ := R.trace
+  have t1 : ∀ t, it (m.linkI 3 ld rd) 1 t ((m.linkI 3 ld rd).β 1 ld) = it m 1 (t + 1) ld := by
+    intro t
+    show _ = it m 1 t (m.β 1 ld)
+    rw [it_congr hβ1', hβ1']
+  have t0 : ∀ t, it (m.linkI 3 ld rd) 0 t ((m.linkI 3 ld rd).β 0 rd) = it m 0 (t + 1) rd := by
+    intro t
+    show _ = it m 0 t (m.β 0 rd)
+    rw [it_congr hβ0', hβ0']
+  rw [t1] at hka
+  rw [t0] at hkb
+  by_cases ha : a = 0
+  · -- open left face: the backward walk
+    rw [if_pos ha] at h
+    by_cases hb0 : b ≠ 0
+    · rw [if_pos hb0] at h; simp at h
+    · rw [if_neg hb0] at h
+      have hb0' : b = 0 := by omega
+      obtain ⟨ls1, hc, h⟩ := run_ro_bind_ok (ReadOnly.rB _ _) h
+      obtain ⟨rfl, _, _⟩ := run_rB_ok hc
+      obtain ⟨rs1, hc', h⟩ := run_ro_bind_ok (ReadOnly.rB _ _) h
+      obtain ⟨rfl, _, _⟩ := run_rB_ok hc'
+      obtain ⟨⟨a', b'⟩, m2, hwalk2, h⟩ := run_bind_ok h
+      simp only [] at h
+      by_cases hb2 : b' ≠ 0
+      · rw [if_pos hb2] at h; simp at h
+      · rw [if_neg hb2] at h
+        obtain ⟨_, hm'⟩ := run_pure_ok h
+        rw [hm']
+        have hb2' : b' = 0 := by omega
+        let E2 : Nat → Prop := fun _ => ¬ Mirror m
+        have I2 : LInv m1 0 1 0 ld rd (m1.β 0 ld) (m1.β 1 rd) E2 := by
+          refine ⟨hw1, by rw [hn1]; exact hln, by rw [hn1]; exact hrn, hl0, hr0, e3ld, rfl, rfl, hr0,
+            fun hh => absurd rfl hh, ?_⟩
+          intro d hd hdl hdr hE
+          have hM : Mirror m := Classical.not_not.1 hE
+          apply MAtG_flip hw1 d01 hd
+          intro g1
+          -- c = β0 d
+          have hd0 : d ≠ 0 := by
+            intro hh
+            have := hw1.inv_ij d10 (d := 0) hw1.npos
+            rw [hh] at g1
+            exact g1 (by rw [hw1.null 0 (by omega)]; exact hw1.null 1 (by omega))
+          by_cases hc0 : m1.β 0 d = 0
+          · rw [hc0] at g1; exact absurd (hw1.null 1 (by omega)) g1
+          · have hcn : m1.β 0 d < m1.n := hw1.range 0 (by omega) d hd
+            have hback : m1.β 1 (m1.β 0 d) = d := hw1.inv_ij d01 hd hc0
+            have hcpl : m1.β 0 d ≠ pl' := by
+              intro hh
+              have := I1.bi
+              rw [← hh, hback, ha] at this
+              exact hd0 this
+            have hE1 : ¬ E (m1.β 0 d) := by
+              intro hh
+              rcases hh with hh | hh | hh
+              · exact hh hM
+              · rw [← hβ0 ld] at hh
+                have h0ld : m1.β 0 ld ≠ 0 := by rw [← hh]; exact hc0
+                have := hw1.inv_ij d01 (by rw [hn1]; exact hln) h0ld
+                rw [← hh, hback] at this
+                exact hdl this
+              · rw [hh] at hback
+                exact hdr hback.symm
+            exact I1.mir _ hcn hcpl (by rw [hb0']; exact hc0) hE1 g1
+        have R2 := linkWalk_ok d01 E2 (n + 1) _ _ ld rd m1 m2 a' b' I2 hwalk2
+        obtain ⟨pl2, pr2, I3⟩ := R2.inv
+        have ha' : a' = 0 := by rcases R2.stopd with hh | hh <;> exact hh
+        refine ⟨I3.wf, hg1.trans R2.grow, ?_, ?_⟩
+        · intro hM d hd
+          have hw2 := I3.wf
+          have all0 : ∀ e, e < m2.n → MAtG m2 0 e := by
+            intro e he
+            by_cases h1 : e = pl2
+            · intro g1; rw [h1, I3.bi] at g1; exact absurd ha' g1
+            · by_cases h2 : e = b'
+              · intro g1; rw [h2, hb2', hw2.null 0 (by omega)] at g1; exact absurd rfl g1
+              · exact I3.mir e he h1 h2 (fun hh => hh hM)
+          exact MAtG_flip hw2 d10 hd (all0 _ (hw2.range 1 (by omega) d hd))
+        · right
+          obtain ⟨k', hka', hkb', hkt'⟩ := R2.trace
+          have s0 : ∀ t, it m1 0 t (m1.β 0 ld) = it m 0 (t + 1) ld := by
+            intro t
+            show _ = it m 0 t (m.β 0 ld)
+            rw [it_congr hβ0, hβ0]
+          have s1 : ∀ t, it m1 1 t (m1.β 1 rd) = it m 1 (t + 1) rd := by
+            intro t
+            show _ = it m 1 t (m.β 1 rd)
+            rw [it_congr hβ1, hβ1]
+          rw [s0] at hka'
+          rw [s1] at hkb'
+          refine ⟨k + 1, k' + 1, by rw [← hka]; exact ha, by rw [← hkb]; exact hb0',
+            by rw [← hka']; exact ha', by rw [← hkb']; exact hb2', ?_, ?_⟩
+          · intro t ht
+            cases t with
+            | zero => exact ⟨hl0, hr0⟩
+            | succ t =>
+                obtain ⟨_, q2, q3, _, _⟩ := hkt t (by omega)
+                rw [t1] at q2
+                rw [t0] at q3
+                exact ⟨q2, q3⟩
+          · intro t ht
+            cases t with
+            | zero => exact ⟨hl0, hr0⟩
+            | succ t =>
+                obtain ⟨_, q2, q3, _, _⟩ := hkt' t (by omega)
+                rw [s0] at q2
+                rw [s1] at q3
+                exact ⟨q2, q3⟩
+  · -- closed left face: the right one must close at the same step
+    rw [if_neg ha] at h
+    have hald : a = ld := by rcases R.stopd with hh | hh; exact hh; exact absurd hh ha
+    by_cases hbrd : b ≠ rd
+    · rw [if_pos hbrd] at h; simp at h
+    · rw [if_neg hbrd] at h
+      obtain ⟨_, hm'⟩ := run_pure_ok h
+      rw [hm']
+      have hbrd' : b = rd := by omega
+      refine ⟨hw1, hg1, ?_, ?_⟩
+      · intro hM d hd
+        have hbi : m1.β 1 pl' = ld := by rw [I1.bi, hald]
+        have hbj : m1.β 0 pr' = rd := by rw [I1.bj, hbrd']
+        have h0ld : m1.β 0 ld = pl' := by
+          have := hw1.inv_ij d10 I1.pln (by rw [hbi]; exact hl0); rwa [hbi] at this
+        have h1rd : m1.β 1 rd = pr' := by
+          have := hw1.inv_ij d01 I1.prn (by rw [hbj]; exact hr0); rwa [hbj] at this
+        have h3pr : m1.β 3 pr' = pl' := by
+          have := (hw1.invol 3 (by omega) (by omega) pl' I1.pln (by rw [I1.b3]; exact I1.pr0)).1
+          rwa [I1.b3] at this
+        by_cases h1 : d = pl'
+        · rw [h1]; intro _ _ _
+          rw [hbi, e3ld, h1rd, I1.b3]
+        · by_cases h2 : d = rd
+          · rw [h2]; intro _ _ _
+            rw [h1rd, h3pr, hbi, e3rd]
+          · refine I1.mir d hd h1 (by rw [hbrd']; exact h2) ?_
+            intro hh
+            rcases hh with hh | hh | hh
+            · exact hh hM
+            · rw [← hβ0 ld, h0ld] at hh; exact h1 hh
+            · exact h2 hh
+      · left
+        refine ⟨k + 1, by omega, by rw [← hka]; exact hald, by rw [← hkb]; exact hbrd', ?_⟩
+        intro t ht0 ht
+        cases t with
+        | zero => omega
+        | succ t =>
+            obtain ⟨q1, q2, q3, _, q5⟩ := hkt t (by omega)
+            rw [t1] at q1 q2
+            rw [t0] at q3 q5
+            refine ⟨q1, q2, ?_, q3⟩
+            intro hh
+            rw [hh, e_rd] at q5
+            exact hl0 q5
+
 end HC
